@@ -6,7 +6,16 @@ package length
 
 //@ func Length(g, df)
 //@   requires df != nil
-//@ func lineStringLength(ls, df)
-//@   requires df != nil
 //@ func polygonLength(p, df)
 //@   requires df != nil
+
+// length of a line = sum of the distances of consecutive vertices, folded left to right from 0
+// (any distance function: uninterpreted; floats abstract: same rounded additions in the same order)
+//@ spec sumDist(ls orb.LineString, df orb.DistanceFunc, n int) float64 = ite(n <= 1, 0.0, sumDist(ls, df, n-1) + df(ls[n-1], ls[n-2]))
+//@ func lineStringLength(ls, df)
+//@   floats abstract
+//@   purefuncs
+//@   pure
+//@   requires df != nil
+//@   ensures same(result, sumDist(ls, df, len(ls)))
+//@   loop 1: invariant 1 <= i && (i <= len(ls) || len(ls) == 0) && same(sum, sumDist(ls, df, i))
